@@ -167,6 +167,31 @@ func corpus() []corpusCase {
 	add("Impl returns NilVal", with(okScript([]pspec{P(tStr, "")}, nil), func(s *script) { s.implMode = imNil }), str("a"))
 	add("Impl returns NilVal, marks collected, refinement declared",
 		with(okScript([]pspec{P(tStr, "")}, nil), func(s *script) { s.implMode, s.refine = imNil, true }), str("a").Mark(m1))
+	// --- cty.NilVal with a nil error is not a result (F-110a: it passed the conformance assertion when the checked type is dynamic) ---
+	nilDyn := func(f func(*script)) script {
+		return with(okScript([]pspec{P(tStr, "")}, nil), func(s *script) { s.implMode, s.retType = imNil, cty.DynamicPseudoType; f(s) })
+	}
+	add("F-110a witness: Impl returns NilVal, checked type dynamic", nilDyn(func(s *script) {}), str("a"))
+	add("F-110a witness: Impl returns NilVal, checked type dynamic, marks collected", nilDyn(func(s *script) {}), str("a").Mark(m1))
+	add("F-110a witness: Impl returns NilVal, checked type dynamic, marks collected, refinement declared (Go panic)", nilDyn(func(s *script) { s.refine = true }), str("a").Mark(m1))
+	add("F-110a witness: Impl returns NilVal, checked type dynamic, refinement declared", nilDyn(func(s *script) { s.refine = true }), str("a"))
+	add("F-110a contrast: generic function (type of first argument), Impl returns NilVal",
+		with(okScript([]pspec{P(tDyn, "du")}, nil), func(s *script) { s.typeMode, s.implMode = tmFirstArg, imNil }), cty.DynamicVal.Mark(m2))
+
+	// --- range refinements declared next to NotNull ---
+	add("number range declared: unknown short-circuit carries it",
+		with(okScript([]pspec{P(tStr, "")}, nil), func(s *script) { s.retType, s.implVal, s.refine, s.refineExtra = cty.Number, num(7), true, true }), cty.UnknownVal(cty.String).Mark(m1))
+	add("number range declared: known result honours it",
+		with(okScript([]pspec{P(tStr, "")}, nil), func(s *script) { s.retType, s.implVal, s.refine, s.refineExtra = cty.Number, num(7), true, true }), str("a"))
+	add("length range declared on list(dynamic): unknown short-circuit carries it",
+		with(okScript([]pspec{P(tStr, "d")}, nil), func(s *script) {
+			s.retType, s.implVal, s.refine, s.refineExtra = cty.List(cty.DynamicPseudoType), list(str("x"), str("y")), true, true
+		}), cty.DynamicVal)
+	add("described function (WithNewDescriptions) keeps the variadic contract",
+		with(okScript([]pspec{P(tNum, "")}, vp(P(tStr, "n"))), func(s *script) { s.viaDesc = true }), num(1), cty.NullVal(cty.String), cty.UnknownVal(cty.String).Mark(m1))
+	add("described function (WithNewDescriptions), variadic description given",
+		with(okScript(nil, vp(P(tStr, ""))), func(s *script) { s.viaDesc = true }), str("a"), cty.NullVal(cty.String))
+
 	add("Impl returns a null, no refinement", with(okScript([]pspec{P(tStr, "")}, nil), func(s *script) { s.implVal = cty.NullVal(cty.String) }), str("a"))
 	return cs
 }
@@ -229,13 +254,14 @@ func focusScripts() []script {
 		mk(func(s *script) { s.typeBeh = model.TypeErrors }),
 		mk(func(s *script) { s.typeBeh, s.panicKind = model.TypePanics, 2 }),
 		mk(func(s *script) { s.typeMode, s.implMode, s.refine = tmFirstArg, imFirstArg, true }),
+		mk(func(s *script) { s.retType, s.implVal, s.refine, s.refineExtra = cty.Number, num(5), true, true }),
 	}
 }
 
 // runFocusEnumeration: one focus parameter in four spec shapes (sole positional,
 // sole variadic, variadic after two positional parameters and one conforming
 // variadic argument, first of two positional) x three constraints x all 16 flag
-// combinations x 17 argument classes x 8 callback scripts. Seed-independent,
+// combinations x 17 argument classes x 9 callback scripts. Seed-independent,
 // split between the batches.
 func runFocusEnumeration(c *core.Ctx, base int64) {
 	vals, names := focusArgs()
@@ -276,7 +302,7 @@ func runFocusEnumeration(c *core.Ctx, base int64) {
 			}
 		}
 	}
-	c.Exhaustive("one focus parameter: 4 spec shapes x {list(string), dynamic, list(dynamic)} x 16 flag combinations x 17 argument classes x 8 callback scripts")
+	c.Exhaustive("one focus parameter: 4 spec shapes x {list(string), dynamic, list(dynamic)} x 16 flag combinations x 17 argument classes x 9 callback scripts")
 }
 
 // runPairEnumeration: two neighbouring list(string) parameters, all 16x16 flag
